@@ -149,7 +149,7 @@ TABLE: List[Entry] = [
     # stay disabled at the enclosing level (C07)
     ("R-SHAVE", None, "probe-value", {"C02", "C07", "C10"}),
     ("R-SHAVE", None, "own-store", {"C02", "C07", "C10"}),
-    ("R-SHAVE", None, "undo-replay", {"C01", "C02", "C08", "C09", "C10"}),
+    ("R-SHAVE", None, "undo-replay", {"C01", "C02", "C07", "C08", "C09", "C10"}),  # C07: un-probing is a backtrack - a constraint disabled inside the probe is effective again (woken against the restored row)
     ("R-SHAVE", None, "re-propagation", {"C01", "C02", "C08", "C10"}),
     ("R-SHAVE", None, "shave-then-exit", {"C01", "C02", "C08", "C10"}),
     ("R-SHAVE", None, "first-pass-", {"C01", "C02", "C08", "C10"}),
